@@ -240,7 +240,11 @@ class TTGlyphPen(_TTGlyphBasePen, LoggingPen):
             startPt = 0
             if self.endPts:
                 startPt = self.endPts[-1] + 1
-            if self.points[startPt] == self.points[endPt]:
+            if (
+                self.points[startPt] == self.points[endPt]
+                and self.types[startPt] & flagOnCurve
+                and self.types[endPt] & flagOnCurve
+            ):
                 self._popPoint()
                 endPt -= 1
 
